@@ -144,8 +144,10 @@ func (e *emul) apply() []Row {
 		if !ok {
 			continue
 		}
+		// deleteHelper: the first stored row that agrees on the primary key (raw comparison) or equals
+		// the whole row under the columns' collations goes
 		for i, s := range rows {
-			if e.t.KeyEq(e.pk, s, d, e.o.Cmp) {
+			if e.t.KeyEq(e.pk, s, d, e.o.Cmp) || e.t.rowEqualsColl(s, d) {
 				rows = append(rows[:i:i], rows[i+1:]...)
 				break
 			}
@@ -277,7 +279,7 @@ func (t *Table) ApplyLikeAccumulator(st *Stmt, o EmulOpts) (out *Outcome, rows [
 				if !e.update(x, nw) {
 					return fail(ErrDup)
 				}
-				if !nw.Same(x) {
+				if !t.rowEqualsColl(nw, x) {
 					out.AffMin += 2
 					out.AffMax += 2
 				}
@@ -314,7 +316,8 @@ func (t *Table) ApplyLikeAccumulator(st *Stmt, o EmulOpts) (out *Outcome, rows [
 				}
 				nw[a.Col] = v
 			}
-			if rowErr == "" && !nw.Same(old) && !e.update(old, nw) {
+			changed := !t.rowEqualsColl(nw, old) // the engine's "did the row change" test is collation-aware
+			if rowErr == "" && changed && !e.update(old, nw) {
 				rowErr = ErrDup
 			}
 			if rowErr != "" {
@@ -324,7 +327,7 @@ func (t *Table) ApplyLikeAccumulator(st *Stmt, o EmulOpts) (out *Outcome, rows [
 				errs[rowErr] = true
 				continue
 			}
-			if !nw.Same(old) {
+			if changed {
 				out.AffMin++
 				out.AffMax++
 			}
@@ -347,4 +350,21 @@ func (t *Table) ApplyLikeAccumulator(st *Stmt, o EmulOpts) (out *Outcome, rows [
 	res := e.apply()
 	tmp := &Table{Rows: res}
 	return out, tmp.CanonRows(), true
+}
+
+// rowEqualsColl compares two rows the way sql.Row.Equals does: strings under their column's collation.
+func (t *Table) rowEqualsColl(a, b Row) bool {
+	for i := range a {
+		ct := t.Cols[i].Type
+		if ct.Kind == KStr && !a[i].Null && !b[i].Null && (ct.Coll == CollAiCi || ct.Coll == CollGeneralCi) {
+			if Fold(a[i].S) != Fold(b[i].S) {
+				return false
+			}
+			continue
+		}
+		if !a[i].Same(b[i]) {
+			return false
+		}
+	}
+	return true
 }
